@@ -59,6 +59,16 @@ type Ledger struct {
 	States    int
 	start     time.Time
 	index     map[string]*Obligation
+	rename    map[string]string // rule-name prefixes rewritten while a rule shared with another property runs
+}
+
+// As runs f with rule names rewritten: a rule owned by one property is a necessary condition of another one too, and
+// is then reported under that property's own rule name.
+func (l *Ledger) As(rename map[string]string, f func()) {
+	old := l.rename
+	l.rename = rename
+	defer func() { l.rename = old }()
+	f()
 }
 
 func NewLedger(prop, tier string, seed int, verifDir string) *Ledger {
@@ -67,6 +77,12 @@ func NewLedger(prop, tier string, seed int, verifDir string) *Ledger {
 }
 
 func (l *Ledger) add(o *Obligation) *Obligation {
+	for from, to := range l.rename {
+		if strings.HasPrefix(o.Rule, from) {
+			o.Rule = to + strings.TrimPrefix(o.Rule, from)
+			break
+		}
+	}
 	k := o.Rule + "\x00" + o.Construct
 	if old, ok := l.index[k]; ok {
 		// keep the worst status for a (rule, construct) pair; merge reasons
